@@ -19,3 +19,69 @@ def gen_angles(rnd, tier):
             re = 0
         out.append({'m': 'angles', 'op': 'norm', 'rm': rm, 're': re})
     return out
+
+
+# ---------------------------------------------------------------- lattice curves
+MOVES2 = [(d, 0) for d in range(1, 5)] + [(0, d) for d in range(1, 5)] + [(3, 4), (4, 3), (6, 8), (8, 6), (5, 12), (12, 5)]
+
+
+def _ilen(a, b):
+    d2 = sum((x - y) ** 2 for x, y in zip(a, b))
+    r = int(round(d2 ** 0.5))
+    return r if r * r == d2 else -1
+
+
+def lattice_curve(rnd, n, grid, dim=2, closed=False):
+    """random walk of n vertices with integer-length steps inside 0..grid; no immediate repeats"""
+    for _attempt in range(200):
+        p = [rnd.randint(0, grid), rnd.randint(0, grid), 0]
+        pts = [tuple(p)]
+        ok = True
+        while len(pts) < n:
+            for _t in range(50):
+                dx, dy = rnd.choice(MOVES2)
+                dx *= rnd.choice((-1, 1)); dy *= rnd.choice((-1, 1))
+                q = (pts[-1][0] + dx, pts[-1][1] + dy, 0)
+                if 0 <= q[0] <= grid and 0 <= q[1] <= grid:
+                    pts.append(q)
+                    break
+            else:
+                ok = False
+                break
+        if not ok:
+            continue
+        if closed:
+            if pts[0] == pts[-1] or _ilen(pts[0], pts[-1]) <= 0:
+                continue
+        if dim == 3:
+            lift = rnd.randint(0, 2)
+            pts = [(x, y, 0) if lift == 0 else ((0, x, y) if lift == 1 else (y, 0, x)) for (x, y, _) in pts]
+        return [list(p) for p in pts]
+    raise RuntimeError('no curve')
+
+
+def cum(pts):
+    c = [0]
+    for a, b in zip(pts, pts[1:]):
+        c.append(c[-1] + _ilen(a, b))
+    return c
+
+
+def gen_c01_random(rnd, tier):
+    n = 60 if tier == 'quick' else 600
+    out = []
+    for _ in range(n):
+        dim = rnd.choice((2, 2, 3))
+        fc = dim == 2 and rnd.random() < 0.4
+        nv = rnd.randint(4, 40)
+        pts = lattice_curve(rnd, nv, 16, dim, closed=fc)
+        built = pts + [pts[0]] if fc else pts
+        c = cum(built)
+        tot = 2 * c[-1]
+        ls = [[rnd.randint(-1, tot + 1), 0] for _ in range(30)] + [[-1, 0], [0, 0], [tot, 0], [tot + 1, 0]]
+        for k in c:
+            ls += [[2 * k, -1], [2 * k, 0], [2 * k, 1]]
+        fs = [rnd.randint(-1, tot + 1) for _ in range(20)] + [0, tot]
+        out.append({'m': 'curve', 'op': 'stations', 'dim': dim, 'tolU': 0, 'fc': fc, 'sc': rnd.choice((0, -10, 4, -3, 7)),
+                    'pts': pts, 'ls': ls, 'fs': fs})
+    return out
